@@ -282,6 +282,12 @@ func filter(context *api.Context, collection b6.UntypedCollection, function api.
 
 // Return a collection of the result of summing the values of each item with the same key.
 // Requires values to be integers.
+// hashable reports whether v can be used as the key of a Go map (a value holding a slice,
+// a map or a function - a collection, for example - cannot, and would panic)
+func hashable(v interface{}) bool {
+	return v == nil || reflect.ValueOf(v).Comparable()
+}
+
 func sumByKey(_ *api.Context, c b6.Collection[any, int]) (b6.Collection[any, int], error) {
 	counts := make(map[interface{}]int)
 	i := c.Begin()
@@ -292,6 +298,9 @@ func sumByKey(_ *api.Context, c b6.Collection[any, int]) (b6.Collection[any, int
 		}
 		if !ok {
 			break
+		}
+		if !hashable(i.Key()) {
+			return b6.Collection[any, int]{}, fmt.Errorf("sum-by-key: can't use a key of type %T", i.Key())
 		}
 		counts[i.Key()] += i.Value()
 	}
@@ -318,7 +327,9 @@ func countValues(_ *api.Context, collection b6.Collection[any, any]) (b6.Collect
 		if !ok {
 			break
 		}
-		// TODO: return an error if the value can't be used as a map key
+		if !hashable(i.Value()) {
+			return b6.Collection[any, int]{}, fmt.Errorf("count-values: can't count values of type %T", i.Value())
+		}
 		counts[i.Value()]++
 	}
 	r := &b6.ArrayCollection[interface{}, int]{
@@ -344,7 +355,9 @@ func countKeys(_ *api.Context, collection b6.Collection[any, any]) (b6.Collectio
 		if !ok {
 			break
 		}
-		// TODO: return an error if the value can't be used as a map key
+		if !hashable(i.Key()) {
+			return b6.Collection[any, int]{}, fmt.Errorf("count-keys: can't count keys of type %T", i.Key())
+		}
 		counts[i.Key()]++
 	}
 	r := &b6.ArrayCollection[interface{}, int]{
